@@ -83,6 +83,8 @@ def make (c):
         spec = curve (rng)
     elif env == 'free':
         fam = None
+        if c ['i'] % 12 == 5 and band == 'decide':
+            fam = 'varray'          # parallel verticals at different places: the pattern is not a figure of revolution
         if band == 'junction':
             fam = str (rng.choice (['star3', 'star4', 'T']))
         spec = gen.fam_free (rng, fam = fam, seg_hi = seg_hi, seg_lo = seg_lo, equal_junction = (band != 'junction'))
